@@ -6,7 +6,6 @@ import (
 	"fmt"
 	"os"
 	"path/filepath"
-	"sort"
 	"strings"
 
 	"github.com/TimothyStiles/poly"
@@ -14,77 +13,6 @@ import (
 
 	"verif/mc"
 )
-
-type c14feat struct {
-	seqid, source, typ   string
-	start, end           int // file coordinates, 1-based inclusive
-	score, strand, phase string
-	attrs                map[string]string
-}
-
-type c14rec struct {
-	name   string
-	rstart int
-	rend   int
-	seq    string
-	feats  []c14feat
-}
-
-func c14seq(n int) string {
-	// non-periodic over ACGT so that a shifted coordinate yields different letters
-	x := uint32(99)
-	b := make([]byte, n)
-	for i := range b {
-		x = x*1664525 + 1013904223
-		b[i] = "ACGT"[(x>>26)%4]
-	}
-	return string(b)
-}
-
-var c14attrMenu = [][2]string{{"ID", "gene0001"}, {"Name", "thr operon leader"}, {"Note", "a%2Cb"}, {"Dbxref", "GeneID:1,UniProt:P1"}, {"locus_tag", "b0001"}, {"product", "hypothetical protein (50 %)"}}
-
-func attrString(m map[string]string) string {
-	var k []string
-	for x := range m {
-		k = append(k, x)
-	}
-	sort.Strings(k)
-	var p []string
-	for _, x := range k {
-		p = append(p, x+"="+m[x])
-	}
-	return strings.Join(p, ";")
-}
-
-// independent GFF3 writer
-func c14write(r c14rec, width int, finalNL, hashes bool) []byte {
-	var b strings.Builder
-	b.WriteString("##gff-version 3\n")
-	fmt.Fprintf(&b, "##sequence-region %s %d %d\n", r.name, r.rstart, r.rend)
-	for _, f := range r.feats {
-		fmt.Fprintf(&b, "%s\t%s\t%s\t%d\t%d\t%s\t%s\t%s\t%s\n", f.seqid, f.source, f.typ, f.start, f.end, f.score, f.strand, f.phase, attrString(f.attrs))
-	}
-	if hashes {
-		b.WriteString("###\n")
-	}
-	b.WriteString("##FASTA\n>" + r.name + "\n")
-	if width == 0 {
-		b.WriteString(r.seq + "\n")
-	} else {
-		for i := 0; i < len(r.seq); i += width {
-			e := i + width
-			if e > len(r.seq) {
-				e = len(r.seq)
-			}
-			b.WriteString(r.seq[i:e] + "\n")
-		}
-	}
-	out := b.String()
-	if !finalNL {
-		out = strings.TrimSuffix(out, "\n")
-	}
-	return []byte(out)
-}
 
 // the same record as a poly.Sequence, for Build
 func c14poly(r c14rec) poly.Sequence {
